@@ -53,6 +53,7 @@ inductive FsOp where
   | rename (a b : Path)
   | remove (p : Path)
   | writeFile (p : Path) (b : Bytes)   -- os.WriteFile: create-or-truncate, then write; *not* atomic
+  | chtimes (p : Path)                 -- os.Chtimes: metadata only, no name and no content changes
   deriving DecidableEq, Repr
 
 /-- complete execution of one call -/
@@ -68,6 +69,7 @@ def FsOp.apply : FsOp → Disk → Disk
       | none => d
   | .remove p, d => d.set p none
   | .writeFile p b, d => d.set p (some b)
+  | .chtimes _, d => d
 
 /-- the call is interrupted after `cut` bytes (only writes have intermediate states; for every other call the state
 "inside" it is the state before it) -/
